@@ -141,6 +141,11 @@ func checkC06(c *Ctx) {
 	c.borrowKinds("C10", func() { c.c10ExpireAt() }, "R06.1", "backends.Write:stored-expiry", []string{"R10.3"}, "stored-E", "no-ttl", "expiry-value")
 	// … and the TTL a Write applies is the effective TTL with the documented jitter T + J·T·(r − 1/2), one draw of the documented
 	// source, for negative TTLs too ("stored as already expired") (C10 R10.2)
+	// "backend default if none": the backend's TimeToLive is the configured one — 5 minutes exactly when 0, UnlimitedTTL (−1) stays
+	// unlimited (C10 R10.2 defaults)
+	c.borrowKinds("C10", func() {
+		c.defaultsRule("R10.2", map[string]*big.Rat{"ExpirationJitter": big.NewRat(1, 10), "TimeToLive": big.NewRat(5*60*1000000000, 1)})
+	}, "R06.1", "Trait.init:TimeToLive-default", []string{"R10.2"}, "TimeToLive")
 	c.borrowKinds("C10", func() { c.c10Jitter() }, "R06.1", "Trait.TTL:jitter", []string{"R10.2"}, "jitter-formula", "rand-count", "jitter-untested", "jitter-when-disabled")
 	// "the temporary re-store of a stale value uses UpdateTTL": an acceptable stale value IS re-stored before the build, by a backend
 	// Write under the UpdateTTL cell (C03 R03.1) — a refresh by another backend operation (prolonging the old expiry) can leave a
